@@ -115,6 +115,29 @@ pub fn check_text(ctx: &mut Ctx, t: &str) -> Result<(), Violation> {
     if let Err(p) = guarded(|| Rank::from_str(t).is_ok()) {
         ctx.fail("rank:panic", format!("Rank::from_str({:?}) panicked: {}", t, p), case())?;
     }
+    // parsing is a pure function: whatever text was parsed before, the moves this text is near to
+    // (same two squares, every promotion option) and its squares must still round-trip afterwards
+    if let (Some(a), Some(b)) = (t.get(0..2).and_then(parse_sq), t.get(2..4).and_then(parse_sq)) {
+        ctx.class("text:begins-with-two-squares");
+        for promo in [None, Some(Kind::Q), Some(Kind::R), Some(Kind::B), Some(Kind::N)] {
+            let m = Mv::new(a, b, promo);
+            let lm = bridge::mv(m);
+            let text = expected_mv(m);
+            match guarded(|| (ChessMove::from_str(&text), lm.to_string())) {
+                Ok((Ok(back), rendered)) if back == lm && rendered == text => {}
+                other => {
+                    let what = format!("after parsing {:?}: {:?} renders / parses as {:?}", t, text, other.map(|(r, s)| (r.map(|x| x.to_string()).map_err(|e| format!("{:?}", e)), s)));
+                    ctx.fail("uci:roundtrip", what, json!({"text": t, "then": text}))?;
+                }
+            }
+        }
+        for q in [a, b] {
+            match guarded(|| Square::from_str(&expected_sq(q))) {
+                Ok(Ok(back)) if back == bridge::sq(q) => {}
+                _ => ctx.fail("square:roundtrip", format!("after parsing {:?}: square {:?} no longer parses to itself", t, expected_sq(q)), json!({"text": t, "then": expected_sq(q)}))?,
+            }
+        }
+    }
     ctx.sample(|| json!({"text": t}));
     Ok(())
 }
